@@ -7,8 +7,8 @@ uninterpreted entries), solid_harmonics through its contract (rows in Horton ord
     radial        entry = sum_n w_n f_n |x_n - c|^(o_t)
     pure          entry = sum_n w_n f_n S_t(x_n - c)                       (rows of the solid-harmonic table)
     pure-radial   entry = sum_n w_n f_n |x_n - c|^(n_t) S_row(l_t, m_t)(x_n - c),  row(l, m) = l^2 + (0 | 2m-1 | 2|m|)
-the output has shape (rows, centres) and return_orders hands back the stacked order list.  The order generator itself and the dipole helper
-are covered by the exhaustive / bounded layer.
+the output has shape (rows, centres) and return_orders hands back the stacked order list.  The order generator (symbolic order) and the
+dipole helper (symbolic number of atoms) have their own contracts below.
 """
 from __future__ import annotations
 
@@ -195,6 +195,7 @@ def validation(chk):
 
 
 def build(chk):
+    dipole(chk)
     for type_mom, dims in (("cartesian", (1, 2, 3)), ("radial", (3,)), ("pure", (3,)), ("pure-radial", (3,))):
         for dim in dims:
             run_type(chk, type_mom, dim, 2 if (type_mom, dim) == ("cartesian", 3) else 1)
@@ -392,6 +393,125 @@ def order_generator(chk):
     for what, exc in (("bad-type", "ValueError"), ("bad-dim", "ValueError"), ("non-integer-order", "TypeError")):
         outs = chk.explore(f"generate_orders_horton_order/{what}", lambda e, what=what: t_misc(e, what), func=fq)
         chk.add(f"generate_orders_horton_order/raises/{what}", [], z3.BoolVal(bool(outs) and all(x.kind == "raise" and x.exc == exc for x in outs)), func=fq,
+                meta={"replay": rep})
+
+
+def dipole(chk):
+    """dipole_moment_of_molecule for a symbolic number of atoms: with Grid.moments by its contract (proved above: row t of the first-order
+    Cartesian moments about the given centre is the quadrature of rho * monomial_t) and the isotope-mass table read from the module (atomic numbers inside the table: precondition),
+        result_c = sum_a Z_a (R_ac - Rc_c) - moment_{1+c},     Rc = sum_a m(Z_a) R_a / sum_a m(Z_a),
+    and the moments were requested at order 1, type 'cartesian', about Rc, for the given density."""
+    eng = chk.eng
+    fq = "grid.utils.dipole_moment_of_molecule"
+    Ma, a0 = z3.Ints("M_atoms a0")
+    R = z3.Function("atom_coord", IS, IS, RS)
+    Zc = z3.Function("atom_charge", IS, IS)
+    MOM = z3.Function("cartesian_moment", IS, RS)            # contract of Grid.moments: row t of the (4, 1) result
+    RHO = z3.Function("rho", IS, RS)
+    rec = {}
+
+    def moments_contract(eng_, f, args, kwargs):
+        rec["args"] = [a for a in args if not isinstance(a, I.Obj)]
+        rec["kwargs"] = dict(kwargs)
+        orders = M.array_from_seq(eng_, [[0, 0, 0], [1, 0, 0], [0, 1, 0], [0, 0, 1]])      # generate_orders_horton_order(1, "cartesian", 3), proved in order_generator
+        return (I.Arr((4, 1), lambda t, j: MOM(T.zi(t)), "real"), orders)
+
+    def thunk(eng_):
+        eng_.assume(z3.And(Ma >= 1, a0 >= 0, a0 < Ma))
+        _q = z3.Int("q_any")
+        table = eng_.lookup_global(eng_.module("grid.utils"), "isotopic_masses")        # the real table, read from the module source
+        rec["table"] = table
+        zmax = max(table.keys())
+        if sorted(table.keys()) != list(range(1, zmax + 1)):
+            raise T.Unsupported("isotopic_masses is not a table for the atomic numbers 1..Zmax")
+        eng_.assume(z3.ForAll([_q], z3.And(Zc(_q) >= 1, Zc(_q) <= zmax)))          # precondition: every atom has a tabulated mass
+        eng_.callee_contracts[FQ] = moments_contract
+        eng_.generic_indices = [a0]
+        try:
+            grid = I.Obj(eng_.get_class("grid.basegrid", "Grid"))
+            coords = I.Arr((Ma, 3), lambda a, c: R(T.zi(a), T.zi(c)), "real")
+            charges = I.Arr((Ma,), lambda a: Zc(T.zi(a)), "int")
+            density = I.Arr((N,), lambda n_: RHO(T.zi(n_)), "real")
+            out = eng_.call(eng_.get_function("grid.utils", "dipole_moment_of_molecule"), [grid, density, coords, charges])
+            return [out.fn(c) for c in range(3)] if out.ndim == 1 else None, out.shape, dict(rec)
+        finally:
+            eng_.callee_contracts.pop(FQ, None)
+            eng_.generic_indices = []
+    outs = chk.explore("dipole", thunk, func=fq)
+    rets = [o for o in outs if o.kind == "return"]
+    rep = {"what": "dipole"}
+    chk.add("dipole/post/returns", [], z3.BoolVal(bool(rets) and len(rets) == len(outs)), func=fq, meta={"replay": rep, "paths": str([(o.kind, o.exc, o.note) for o in outs])})
+    for oi, o in enumerate(rets):
+        sfx = "" if len(rets) == 1 else f"@{oi}"
+        vals, shape, r_ = o.value
+        chk.add_from_path("dipole" + sfx, o, func=fq, meta={"replay": rep})
+        chk.add(f"dipole/post/three-components{sfx}", list(o.pc), z3.BoolVal(len(shape) == 1) if len(shape) != 1 else T.zi(shape[0]) == 3, func=fq, meta={"replay": rep})
+        a_ = r_.get("args") or []
+        kw = r_.get("kwargs") or {}
+        ok = len(a_) >= 3 and a_[0] == 1 and kw.get("type_mom") == "cartesian" and kw.get("return_orders") is True
+        chk.add(f"dipole/callee-pre/first-order-cartesian-moments-with-orders{sfx}", [], z3.BoolVal(bool(ok)), kind="post", func=fq, meta={"replay": rep})
+        if not ok or vals is None:
+            continue
+        cen, dens = a_[1], a_[2]
+        table = r_["table"]
+
+        def mass(zz):
+            keys = list(table.keys())
+            res = table[keys[-1]]
+            for k_ in keys[-2::-1]:
+                res = T.ite(T.compare("eq", zz, k_), table[k_], res)
+            return T.zr(res)
+        msum = framework.PrefixSum("total_mass", lambda a: mass(Zc(T.zi(a))))
+        wsum = [framework.PrefixSum(f"mass_weighted_coordinate{c}", (lambda c: (lambda a: mass(Zc(T.zi(a))) * R(T.zi(a), c)))(c)) for c in range(3)]
+        zsum = [framework.PrefixSum(f"charge_weighted_coordinate{c}", (lambda c: (lambda a: z3.ToReal(Zc(T.zi(a))) * R(T.zi(a), c)))(c)) for c in range(3)]
+        qsum = framework.PrefixSum("total_charge", lambda a: z3.ToReal(Zc(T.zi(a))))
+        chk.add(f"dipole/callee-pre/density-passed-on{sfx}", list(o.pc), z3.And(z3.BoolVal(isinstance(dens, I.Arr) and dens.ndim == 1), T.zr(dens.fn(z3.Int("n0"))) == RHO(z3.Int("n0")))
+                if isinstance(dens, I.Arr) and dens.ndim == 1 else z3.BoolVal(False), kind="post", func=fq, meta={"replay": rep})
+        rec_o = {"o": o, "cen": cen, "vals": vals, "sums": (msum, wsum, zsum, qsum), "R": R, "Zc": Zc}
+        dipole_posts(chk, rec_o, sfx, Ma, MOM, rep, fq)
+
+
+def _quotient(t):
+    divs = [u for u in [t] + list(T.subterms(t).values()) if z3.is_app(u) and u.decl().kind() == z3.Z3_OP_DIV]
+    return max(divs, key=lambda u: len(u.sexpr())) if divs else None
+
+
+def dipole_posts(chk, rec_o, sfx, Ma, MOM, rep, fq):
+    o, cen, vals = rec_o["o"], rec_o["cen"], rec_o["vals"]
+    msum, wsum, zsum, qsum = rec_o["sums"]
+    R, Zc = rec_o["R"], rec_o["Zc"]
+    hy = list(o.pc) + list(o.assumptions)
+    if not (isinstance(cen, I.Arr) and cen.ndim == 2):
+        chk.add(f"dipole/callee-pre/centre-of-mass{sfx}", [], z3.BoolVal(False), kind="post", func=fq, meta={"replay": rep})
+        return
+    chk.add(f"dipole/callee-pre/one-centre{sfx}", hy, z3.And(T.zi(cen.shape[0]) == 1, T.zi(cen.shape[1]) == 3), kind="post", func=fq, meta={"replay": rep})
+    cen_terms = []
+    for c in range(3):
+        t = T.zr(cen.fn(0, c))
+        cen_terms.append(t)
+        q = _quotient(t)
+        sn = framework.find_sites(q.arg(0)) if q is not None else []
+        sd = framework.find_sites(q.arg(1)) if q is not None else []
+        eqs = []
+        # the sums the code forms (whichever there are) are matched with the specification sums; the statement itself is always generated
+        if len(sn) == 1:
+            eqs.append(framework.match_sum(chk, f"dipole/centre{c}/mass-weighted-coordinates{sfx}", sn[0], wsum[c], 0, Ma - 1, hy, func=fq, meta={"replay": rep}))
+        if len(sd) == 1:
+            eqs.append(framework.match_sum(chk, f"dipole/centre{c}/total-mass{sfx}", sd[0], msum, 0, Ma - 1, hy, func=fq, meta={"replay": rep}))
+        pos = [msum.range_sum(0, Ma - 1) > 0]          # masses are positive (table), at least one atom
+        chk.add(f"dipole/callee-pre/centre-of-mass-component{c}{sfx}", hy + eqs + pos, t == wsum[c].range_sum(0, Ma - 1) / msum.range_sum(0, Ma - 1), kind="post",
+                func=fq, meta={"replay": rep})
+    for c in range(3):
+        val = T.zr(vals[c])
+        # the nuclear part: the one sum over the atoms that is not part of the centre
+        inner = set(u.get_id() for t in cen_terms for u in framework.find_sites(t))
+        sites = [u for u in framework.find_sites(val) if u.get_id() not in inner]
+        if len(sites) != 1:
+            chk.undecided.append((f"C14/dipole/component{c}{sfx}", f"{len(sites)} nuclear sums"))
+            continue
+        ps = framework.PrefixSum(f"nuclear_first_moment{c}", (lambda c: (lambda a: z3.ToReal(Zc(T.zi(a))) * (R(T.zi(a), c) - cen_terms[c])))(c))
+        eq = framework.match_sum(chk, f"dipole/component{c}/nuclear-part{sfx}", sites[0], ps, 0, Ma - 1, hy, func=fq, meta={"replay": rep}, toplevel=True)
+        chk.add(f"dipole/post/nuclear-minus-electronic-first-moment-component{c}{sfx}", hy + [eq], val == ps.range_sum(0, Ma - 1) - MOM(c + 1), func=fq,
                 meta={"replay": rep})
 
 
